@@ -52,8 +52,15 @@ MUTATORS = {
     "to_R": lambda c: c.choose_trigonal_lattice("R"),
     # a request the API refuses (unknown setting name): it raises, and must leave the crystal as it was
     "to_invalid": lambda c: c.choose_trigonal_lattice("r"),
+    # queries with an argument the API refuses: they raise (possibly after filling a memo on the way) and whatever they leave behind
+    # must still answer every later query like a freshly built crystal
+    "uc_atoms_refused": lambda c: c.unit_cell_atoms(tolerance=None),
+    "shell_refused": lambda c: c.molecular_shell(method="centre_of_mass"),
+    "descriptors_refused": lambda c: c.molecular_shape_descriptors(l_max=2, with_property="no_such_property"),
+    "radius_refused": lambda c: c.atoms_in_radius("far"),
+    "supercell_refused": lambda c: c.as_P1_supercell((1, 2)),
 }
-REFUSED = ("to_invalid",)
+REFUSED = ("to_invalid", "uc_atoms_refused", "shell_refused", "descriptors_refused", "radius_refused", "supercell_refused")
 ALPHABET = list(QUERIES) + list(MUTATORS) + ["deepcopy"]
 NOT_TRIGONAL = ("disorder_P1",)
 
@@ -516,7 +523,8 @@ def run(ctx):
 
     alias_depth = 2 if ctx.thorough else 2
     prefixes = [(k, list(h)) for k in kinds for L in range(1, alias_depth + 1) for h in it.product(alphabet_for(k), repeat=L)
-                if any(x in QUERIES for x in h) and (L == 1 or k in ("water_H", "ammonia_water_H") or ctx.thorough)]
+                if any(x in QUERIES for x in h) and (L == 1 or k in ("water_H", "ammonia_water_H") or ctx.thorough)
+                and (L == 1 or ctx.thorough or not any(x in REFUSED[1:] for x in h))]     # refused queries: in the state search, and as prefixes of length 1
     ctx.pmap(aliasing_worker, prefixes)
     ctx.pmap(clock_independence, kinds)
     ctx.bounds["aliasing_histories"] = "%d prefixes of length <= %d (no deduplication) x %d final operations" % (len(prefixes), alias_depth, len(ALPHABET))
